@@ -298,9 +298,20 @@ def uncertainty_tokenizer(input_string: str) -> Generator[TokenInfo, None, None]
             )
             std_dev = next(toklist)
             if "." not in std_dev.string:
+                # the digits in parentheses apply to the last digits of the
+                # nominal value: 1.25(5) is 1.25 +/- 0.05, 100(10) is 100 +/- 10
+                digits = std_dev.string
+                decimals = len(nominal_value.string.partition(".")[2])
+                if "e" in nominal_value.string.lower():
+                    std_string = "0." + digits
+                elif decimals:
+                    digits = digits.rjust(decimals + 1, "0")
+                    std_string = digits[:-decimals] + "." + digits[-decimals:]
+                else:
+                    std_string = digits
                 std_dev = tokenize.TokenInfo(
                     type=std_dev.type,
-                    string="0." + std_dev.string,
+                    string=std_string,
                     start=std_dev.start,
                     end=std_dev.end,
                     line=line,
